@@ -41,7 +41,17 @@ def scope_cases(ctx, world, n):
         glb = dict(gl)
         glb["__name__"] = "hostmod"
         frame = e2.mk_frame("/app/m.py", "f", 3, dict(lo), f_globals=glb)
+        before = (dict(frame.f_locals), {k: v for k, v in glb.items() if k != "__builtins__"})
+        # expressions whose inner scopes cannot see the frame's locals (NameError in plain eval): evaluating them must
+        # not touch the frame's scopes either
+        for extra in ("sum(v for v in [a, b])", "(lambda: a)()", "[q for q in undefined_seq]"):
+            TriggerContext(world.cfg, world.push, frame, "line", None).evaluate_expression(extra)
         res = TriggerContext(world.cfg, world.push, frame, "line", None).evaluate_expression(name)
+        after = (dict(frame.f_locals), {k: v for k, v in glb.items() if k != "__builtins__"})
+        if before != after:
+            ctx.fail("evaluating %r changed the frame's scopes: locals %s -> %s, module globals %s -> %s" % (
+                name, sorted(before[0]), sorted(after[0]), sorted(before[1]), sorted(after[1])),
+                dict(name=name, locals=sorted(lo), globals=sorted(gl)), tag="scope-mutated")
         if isinstance(res, Obj):
             obs = res.k
         elif isinstance(res, NameError):
